@@ -120,7 +120,7 @@ struct E6 : Engine {
 			if(x == 0 && r.below(2)){ c["kind"] = "ptimer"; c["ms"] = 1 + (int)r.below(12); c["times"] = 2 + (int)r.below(5); c["cancel_after_ms"] = r.below(4) ? (int)r.below(60) : -1; }   // periodic - the handler re-arms the same timer from inside, a cancel has to stop the wait pending at that moment
 			else if(x == 0){ c["kind"] = "dtimer"; c["ms"] = (int)r.below(30); c["cancel_after_ms"] = r.below(2) ? (int)r.below(40) : -1; }
 			else if(x == 1){ c["kind"] = "read"; c["want"] = 1 + (int)r.below(3000); c["feed"] = (int)r.below(4000); c["chunk"] = 1 + (int)r.below(700); c["close_peer"] = r.below(3) == 0; c["cancel_after_ms"] = r.below(3) == 0 ? (int)r.below(20) : -1; c["close"] = (int)r.below(2); c["eof_first"] = r.below(5) == 0; }   /* eof_first (round 9): the peer has closed before async_read() is started - its first immediate attempt already ends with eof */
-			else { c["kind"] = "write"; c["len"] = 1 + (int)r.below(20000); c["cap"] = 1 + (int)r.below(3000); c["drain"] = 1 + (int)r.below(2000); c["cancel_after_ms"] = r.below(4) == 0 ? (int)r.below(20) : -1; c["close"] = (int)r.below(2); }
+			else { c["kind"] = "write"; c["len"] = 1 + (int)r.below(20000); c["cap"] = 1 + (int)r.below(3000); c["drain"] = 1 + (int)r.below(2000); c["cancel_after_ms"] = r.below(4) == 0 ? (int)r.below(20) : -1; c["close"] = (int)r.below(2); c["gone_first"] = r.below(6) == 0; }   /* gone_first (round 9): the peer has closed before async_write() is started - its first immediate attempt already fails */
 			ch.push(c); }
 		p["chains"] = ch;
 		p["p_inprogress"] = r.below(3) ? 700 : 0;
@@ -245,6 +245,7 @@ struct E6 : Engine {
 						ch->hid = w.add("aread"); w.h[ch->hid].want = want;
 						srv.post([cp]{ cp->sock->async_read(aio::buffer(&cp->buf[0],cp->buf.size()),Fn(cp->hid)); }); }
 					else { size_t len = (size_t)std::max<int64_t>(1,std::min<int64_t>(c.geti("len",1),400000)); ch->buf.resize(len); for(size_t j=0;j<len;j++) ch->buf[j] = (char)((j*13+i) & 0xff); ch->drain = (size_t)std::max<int64_t>(1,c.geti("drain",1));
+						if(c.geti("gone_first")){ ::close(ch->peer); ch->peer = -1; ch->peer_closed = true; res.counters["awrite_peer_closed_first"] = res.counters.geti("awrite_peer_closed_first") + 1; }
 						ch->hid = w.add("awrite"); w.h[ch->hid].want = len;
 						srv.post([cp]{ cp->sock->async_write(aio::buffer(cp->buf.data(),cp->buf.size()),Fn(cp->hid)); }); }
 					if(ch->cancel_after >= 0){ srv.post([&srv,cp]{ cp->canceler.reset(new aio::deadline_timer(srv)); cp->canceler->expires_from_now(ptime::milliseconds(cp->cancel_after)); cp->canceler->async_wait([cp](booster::system::error_code const &){ if(cp->close_instead){ booster::system::error_code e; cp->sock->close(e); cp->closed = true; } else cp->sock->cancel(); }); }); }   // closing the device while its operation is pending must complete the operation too
@@ -445,6 +446,7 @@ struct E6 : Engine {
 			if(ch->kind == "write"){
 				if(r.code == 0 && r.n != r.want) res.fail("short-async-write","async_write completed successfully with " + std::to_string(r.n) + " of " + std::to_string(r.want) + " bytes");
 				if(ch->drained.size() > ch->buf.size() || ch->buf.compare(0,ch->drained.size(),ch->drained) != 0) res.fail("async-write-data-mismatch","bytes received by the peer are not a prefix of the written buffer");
+				if(ch->peer < 0 && ch->peer_closed && ch->drained.empty()){ if(r.code == 0) res.fail("async-write-to-closed-peer-succeeded","async_write to a peer that had closed before the operation was started completed with success"); else res.counters["awrite_peer_closed_first_failed"] = res.counters.geti("awrite_peer_closed_first_failed") + 1; }
 				if(r.code == 0) res.counters["awrite_ok"] = res.counters.geti("awrite_ok") + 1; else res.counters["awrite_err"] = res.counters.geti("awrite_err") + 1; }
 		}
 		res.counters["handlers"] = (long long)w.h.size(); res.counters["handlers_ok"] = n_ok; res.counters["handlers_cancelled_or_error"] = n_cancel; res.counters["loop_stop_race"] = stop_race;
